@@ -578,6 +578,7 @@ func c04Check(c *rt.C, b *jBundle, id, class string) {
 		cp, err := compileBundlePackage(mb, pkg)
 		if err != nil {
 			c.Event("bundle_does_not_compile")
+			c.Feature("c04:compile-failed/" + errSig(err))
 			return
 		}
 		c.Eval(rt.Hash(pkg, string(bundleBytes(src))), true)
@@ -618,11 +619,13 @@ func c04Check(c *rt.C, b *jBundle, id, class string) {
 		} else {
 			sources = append(sources, source{entry: "set/memory", set: set})
 		}
-		if printed, perr := printPackage(cp); perr == nil {
+		// the text of the whole bundle: files of one package may import files of another
+		if printed, perr := printBundle(mb); perr == nil {
 			if ct, cerr := compileProtoText(printed); cerr == nil {
 				sources = append(sources, source{entry: "cache/text", lookup: find(ct.Files)})
 			} else {
 				c.Event("printed_text_does_not_compile") // C05
+				c.Feature("c04:text-compile-failed/" + errSig(cerr))
 			}
 		} else {
 			c.Event("package_does_not_print")
@@ -809,6 +812,29 @@ func (g *j5Gen) ruledType() *jT {
 			t.AnyTypes = []string{"some.v1.Thing"}
 		}
 		return t
+	case 10:
+		// an inline enum with in / notIn rules (the implicit zero option may be named) and list rules
+		opts := []string{"ON", "OFF", "AUTO"}
+		t := &jT{Kind: kEnum, Inline: &jDecl{Kind: kEnum, Options: opts}}
+		if maybe() {
+			t.Inline.Options = append([]string{"UNSPECIFIED"}, opts...)
+		}
+		pick := func() string {
+			if rng.Intn(4) == 0 {
+				return "UNSPECIFIED"
+			}
+			return opts[rng.Intn(len(opts))]
+		}
+		switch rng.Intn(3) {
+		case 0:
+			t.Rules = &jRules{In: []string{pick()}}
+		case 1:
+			t.Rules = &jRules{NotIn: []string{pick()}}
+		}
+		if maybe() {
+			t.List = &jList{Filterable: true}
+		}
+		return t
 	default:
 		item := g.ruledType()
 		for item.Kind == "array" || item.Kind == "map" || item.Kind == "any" {
@@ -864,7 +890,8 @@ func runC04(r *rt.Runner) {
 				case 0:
 					f.Req = true
 				case 1:
-					if f.T.Kind != "array" && f.T.Kind != "map" {
+					// a primary key is required by definition
+					if f.T.Kind != "array" && f.T.Kind != "map" && !(f.T.Primary != nil && *f.T.Primary) {
 						f.Opt = true
 					}
 				}
